@@ -10,15 +10,17 @@ Case families (each enumerated completely, see enumerate_cases):
   lat       on one representative per equivalence class of the AHAB database data (quick; thorough: up to three): every
             assignment of DIMS with <= k departures from the base for both kinds (k = 1 quick, 2 thorough), tamper sweep
             on every k <= 1 case (quick: on the k = 1 cases whose dimension changes the authenticated layout, AUTH_DIMS)
-  keys      full product SRK key type {P-256/384/521, RSA-2048/3072/4096, leading-zero P-256/384} x DEK blob {absent, present,
-            present + encrypted image} x certificate {absent, present (where the family supports it)} on every class
+  keys      full product SRK key type {P-256/384/521, RSA-2048/3072/4096, leading-zero P-256/384} x DEK blob {absent, present;
+            thorough: + present with an encrypted image} x certificate {absent, present (where the family supports it)} on every class
             representative and container version, both tiers, with the tamper sweep
   hist      object histories on one representative per container version (+ certificate), P-256 and RSA-2048 SRK tables, 1 / 2
             containers: build+export [-> parse] -> change sw_version / fuse_version / flags / a load address of the last
             container -> attach the matching signing key (provider, or the `ahab sign` configuration path) ->
             update_fields() [twice] -> export; the new bytes go to the independent reader
   grid      full product target memory x offset mode x size class x images per container x containers (structural group;
-            quick: size classes {1, 13, 1026, 513}, images {1, 3}, containers {1, 2}; thorough: all)
+            quick: size classes {13, 1026, 513}, images {1, 3}, containers {1, 2}; thorough: all; offset modes incl. explicit
+            offsets that are not ascending inside a container: descending, middle-first, descending + automatic,
+            automatic + descending)
   bytes     every byte (quick: one bit per byte; thorough: every bit while the signed part is <= 1 KiB) of the
             authenticated regions of the base signed cases per container version and key type
   cli       nxpimage ahab export / parse / verify through click's CliRunner, one per class and kind
@@ -1428,7 +1430,7 @@ def enumerate_cases(tier: str, sv: list) -> dict:
         for mem in MEMORIES:
             for off in ("auto", "explicit", "mixed", "low", "unaligned", "descending", "middle-first", "desc-auto", "auto-desc"):
                 order_mode = off in ORDER_MODES
-                for sz in ((13, 1026) if quick and order_mode else (1, 13, 1026, 513) if quick else SIZES[:-1]):
+                for sz in ((13, 1026) if quick and order_mode else (13, 1026, 513) if quick else SIZES[:-1]):
                     for ni in ((1, 3) if quick else (1, 2, 3)):
                         if order_mode and ni == 1:
                             continue  # one image has no order
@@ -1470,7 +1472,7 @@ def enumerate_cases(tier: str, sv: list) -> dict:
         info = rs[0]
         for v in info["v"]:
             for srk in SRK_SETS:
-                for enc in ("no", "blob", "enc128"):
+                for enc in (("no", "blob") if quick else ("no", "blob", "enc128")):
                     for cert in (("no", "container") if info["cert"] and v == 2 else ("no",)):
                         d: dict = {}
                         if srk != "p256":
